@@ -64,11 +64,35 @@ Definition check_lifecycle (c : list (nat * Z) * list (nat * Z)) : bool :=
   | None => false
   end.
 
+(* case kind 3: concurrently issued reports.  script = prefix ++ [(0, 200)] ++ concurrent; the
+   prefix was executed sequentially, the reports after the separator were issued concurrently (one
+   goroutine each, all overlapping in real time).  The observed events must be one of the outcomes
+   of the atomic model: the sequential run of the prefix followed by SOME ordering of the
+   concurrent reports. *)
+Fixpoint split_conc (ls : list (nat * Z)) : list (nat * Z) * list (nat * Z) :=
+  match ls with
+  | [] => ([], [])
+  | p :: r => if Z.eqb (snd p) 200 then ([], r) else let '(a, b) := split_conc r in (p :: a, b)
+  end.
+
+Definition reps_of (ls : list (nat * Z)) : option (list (nat * report)) :=
+  map_opt (fun p => option_map (fun r => (fst p, r)) (rep_of_Z (snd p))) ls.
+
+Definition check_conc (c : list (nat * Z) * list (nat * Z)) : bool :=
+  let '(ls, obs) := c in
+  let '(pre, conc) := split_conc ls in
+  match reps_of pre, reps_of conc with
+  | Some pre', Some conc' =>
+      existsb (fun out => list_eqb pairNZ_eqb (evZ out) obs) (conc_outcomes pre' conc')
+  | _, _ => false
+  end.
+
 Definition check_case (c : nat * (list (nat * Z) * list (nat * Z))) : bool :=
   match fst c with
   | 0 => check_reporter (snd c)
   | 1 => check_shared (snd c)
-  | _ => check_lifecycle (snd c)
+  | 2 => check_lifecycle (snd c)
+  | _ => check_conc (snd c)
   end.
 
 (* model outputs, for replay files *)
@@ -77,5 +101,11 @@ Definition model_out (c : nat * (list (nat * Z) * list (nat * Z))) : option (lis
   | 0 => option_map (fun ls' => evZ (snd (rep_run [] ls')))
            (map_opt (fun p => option_map (fun r => (fst p, r)) (rep_of_Z (snd p))) (fst (snd c)))
   | 1 => option_map (fun os' => repZ (sc_run shared0 os')) (map_opt scop_of (fst (snd c)))
-  | _ => option_map (fun os' => evZ (lc_events os')) (map_opt lcop_of (fst (snd c)))
+  | 2 => option_map (fun os' => evZ (lc_events os')) (map_opt lcop_of (fst (snd c)))
+  | _ => (* concurrent reports: the outcome of the launch order (the other orderings are legal too) *)
+         let '(pre, conc) := split_conc (fst (snd c)) in
+         match reps_of pre, reps_of conc with
+         | Some pre', Some conc' => Some (evZ (snd (rep_run [] (pre' ++ conc'))))
+         | _, _ => None
+         end
   end.
